@@ -375,6 +375,8 @@ def check_enforce_case(ctx, cases, state, n, csr, b, x, S, which, diag, rng, Sar
             return F6_KEY
         if fmt != 'csr':
             return 'enforce:non-csr-input'
+        if len(S) == 0:
+            return 'enforce:empty-selection'
         if has_rep:
             return 'enforce:repeated-indices'
         return default
@@ -502,7 +504,13 @@ def check_condense_case(ctx, cases, state, n, csr, b, x, S, which, rng, Sarg=Non
     ctx.hist('split_given_as', which)
     ctx.hist('nD', len(D))
     before = checksum(A, bb, xx, Sarr if isinstance(Sarr, np.ndarray) else None)
-    out = condense(A, bb, xx, **{which: Sarr})
+    try:
+        out = condense(A, bb, xx, **{which: Sarr})
+    except Exception as e:  # noqa: BLE001
+        ctx.fail(('condense:empty-selection' if len(S) == 0 else 'condense:raises:' + type(e).__name__),
+                 f'condense raises {type(e).__name__}: {e}' + (f' (empty index array of dtype {getattr(Sarr, "dtype", None)})' if len(S) == 0 else ''),
+                 dict(rep, index_dtype=str(getattr(Sarr, 'dtype', None))))
+        return
     if checksum(A, bb, xx, Sarr if isinstance(Sarr, np.ndarray) else None) != before:
         ctx.fail('no_mutation:condense', 'condense modified one of its arguments', rep)
     b_eff = b if b is not None else (None if x is None else [0] * n)
@@ -601,7 +609,7 @@ def check_condense_eig(ctx, cases, state, n, csrA, csrB, x, S, which, rng):
         ctx.fail('condense_eig:blocks', 'condense (matrix rhs) does not return A_II, B_II', rep)
 
 
-def check_penalize_case(ctx, cases, state, n, csr, b, x, S, which, k, rng):
+def check_penalize_case(ctx, cases, state, n, csr, b, x, S, which, k, rng, Sarg=None):
     """epsilon = 2^-k so that 1/epsilon and x/epsilon are exact"""
     from skfem.utils import penalize
     ip, ix, d = csr
@@ -611,14 +619,19 @@ def check_penalize_case(ctx, cases, state, n, csr, b, x, S, which, k, rng):
         ip, ix, d = canon_csr_lists(A)
     bb = None if b is None else np.array(b, dtype=float)
     xx = None if x is None else np.array(x, dtype=float)
-    Sarr = idx_array(rng, S)
+    Sarr = idx_array(rng, S) if Sarg is None else Sarg
     D = dedup(S) if which == 'D' else [i for i in range(n) if i not in S]
     w = 2 ** k
     rep = {'fn': 'penalize', 'n': n, 'indptr': ip, 'indices': ix, 'data': d, 'b': b, 'x': x, which: S, 'epsilon': f'2^-{k}',
            'nontrivial': n >= 2 and 0 < len(D) < n}
     ctx.count(('penalize', n, ip, ix, d, b, x, S, which, k), nontrivial=rep['nontrivial'])
     before = checksum(A, bb, xx, Sarr)
-    out = penalize(A, bb, xx, epsilon=2.0 ** -k, **{which: Sarr})
+    try:
+        out = penalize(A, bb, xx, epsilon=2.0 ** -k, **{which: Sarr})
+    except Exception as e:  # noqa: BLE001
+        ctx.fail(('penalize:empty-selection' if len(S) == 0 else 'penalize:raises:' + type(e).__name__),
+                 f'penalize raises {type(e).__name__}: {e}', dict(rep, index_dtype=str(getattr(Sarr, 'dtype', None))))
+        return
     if checksum(A, bb, xx, Sarr) != before:
         ctx.fail('no_mutation:penalize', 'penalize(overwrite=False) modified its arguments', rep)
     A2, b2 = (out if isinstance(out, tuple) else (out, None))
@@ -1058,6 +1071,18 @@ def _gen_random(ctx, cases, state):
                 check_penalize_limit(ctx, state, n, csr, b, x, D, rng, zero_diag=True)
     for it in range(ctx.n(60, 400)):
         check_noncanonical(ctx, rng.randint(1, nmax), rng)
+    # empty selections of every dtype (np.array([]) is an array of floats), both call forms
+    for dt in (np.float64, np.int32, np.int64):
+        for which in ('I', 'D'):
+            for rep_i in range(ctx.n(2, 8)):
+                n = rng.randint(1, nmax)
+                csr = rand_csr(rng, n)
+                b = [rng.randint(-9, 9) for _ in range(n)]
+                x = [rng.randint(-9, 9) for _ in range(n)]
+                ctx.hist('empty_selection', f'{which}:{np.dtype(dt).name}')
+                check_enforce_case(ctx, cases, state, n, csr, b, x, [], which, rng.choice([1, 2]), rng, Sarg=np.array([], dtype=dt), tag='empty')
+                check_condense_case(ctx, cases, state, n, csr, b, x, [], which, rng, Sarg=np.array([], dtype=dt))
+                check_penalize_case(ctx, cases, state, n, csr, b, x, [], which, rng.randint(0, 4), rng, Sarg=np.array([], dtype=dt))
     for it in range(ctx.n(30, 200)):
         check_complex_values_real_system(ctx, cases, rng.randint(1, nmax), rng)
     for it in range(ctx.n(30, 200)):
